@@ -1076,6 +1076,13 @@ def run_C07(rng, tier):
             xs[6 + rng.below(8)] = F(10 ** 17) * rng.choice([1, 3])
             d = (v, E) if v in ("Drawdown", "Tanh") else (v, n, E)
             fcases.append(Case.simple(d, xs, {"regime": "giant-spike", "view": v, "model": False, "mode": "f64"}))
+    # every window length up to 130 for the windowed bounded views (f64, short streams with ties)
+    for v in ("Rsi", "MyRsi", "Hln", "Cti", "Net", "Entropy", "Min", "Max", "Cog", "Lrsi"):
+        for n in range(2, 131):
+            if v in ("Cti", "Net") and n > 40 and n not in (63, 64, 65, 100, 127, 128, 129):
+                continue
+            _, xs = gen_stream(rng, (2 * n + 10) if n <= 40 else (n + 10), positive=(v == "Cog"), grid=rng.choice([1, 4]))
+            fcases.append(Case(( v, n, E), [("v", 0, x) for x in xs], {"regime": "every-n", "view": v, "model": False, "mode": "f64"}))
     run_impl(fcases, mode="f64")
     viols += O.c07(fcases, f64=True)
     return finish("C07", "C07", cases, viols, "every bounded view, N>=2, all regimes incl. constant stretches after volatile ones, spikes, monotone runs; exact-rational bound check at every step, and an f64 repeat with a tolerance of 4 ulps of the bound",
@@ -1261,6 +1268,17 @@ def run_C12(rng, tier):
             c1 = Case.simple(d, xs, {"view": name, "regime": "base", "model": False, "mode": "f64"})
             c2 = Case.simple(d, [a * x for x in xs], {"view": name, "regime": "x*2^%d" % kk, "model": False, "mode": "f64"})
             fpairs.append((c1, c2, (kk, inv)))
+    # ... and at EVERY window length up to 130 (short streams): an invariance lost only for particular lengths cannot hide
+    for name in [x for x in AFFINE_INV + SCALE_INV + SCALE_EQ if x in WINDOWED or x == "Roofing"]:
+        inv = name not in SCALE_EQ
+        lo = {"Roofing": 2, "Cyber": 3}.get(name, 1)
+        for n in range(lo, 131):
+            d = ("Roofing", n, 1 + n % 4, E) if name == "Roofing" else (name, n, E)
+            kk = [-40, 20, 3][n % 3]
+            _, xs = gen_stream(rng, (2 * n + 12) if n <= 40 else (n + 12), positive=needs_positive(d), grid=7)
+            c1 = Case(d, [("v", 0, x) for x in xs], {"view": name, "regime": "every-n base", "model": False, "mode": "f64"})
+            c2 = Case(d, [("v", 0, F(2) ** kk * x) for x in xs], {"view": name, "regime": "every-n x*2^%d" % kk, "model": False, "mode": "f64"})
+            fpairs.append((c1, c2, (kk, inv)))
     run_impl([c for p_ in fpairs for c in p_[:2]], mode="f64", profile="release")
     viols += O.c12_pow2(fpairs)
     return finish("C12", "C12", cases, viols, "paired runs x vs a*x+b / a*x / -x with rational a>0 and b for every view the property names; exact equality / scaling / negation of the outputs at every step (degenerate flat windows excluded as the property says); f64 pairs x vs 2^k*x compared bit for bit", {"f64_pow2_pairs": len(fpairs)})
@@ -1442,6 +1460,15 @@ def run_C18(rng, tier):
             if not is_heavy(big):
                 r2, xs2 = gen_stream(rng, 700, "walk", positive=True, grid=8)
                 fc.append(Case.simple(big, xs2, {"view": name, "regime": "long/large-window", "model": False, "mode": "f64"}))
+    # every window length up to 130: population against the proved bound at every step, constant once the window has filled
+    for name in [x for x in ALL_UNARY if x in WINDOWED or x in ("Roofing", "Pfe", "Eft", "WelfordMean", "WelfordVar", "EmaAlpha", "AlmaCustom")]:
+        lo = {"Roofing": 2, "Cyber": 3, "Pfe": 3, "Eft": 2}.get(name, 1)
+        for n in range(lo, 131):
+            d = mk_view(rng, name, E, n=n)
+            if is_heavy(d) and n > 40 and n % 8:
+                continue
+            _, xs = gen_stream(rng, 4 * n + 40 if n <= 30 else 2 * n + 60, "walk", positive=True, grid=8)
+            fc.append(Case.simple(d, xs, {"view": name, "regime": "every-n", "model": False, "mode": "f64"}))
     run_impl(fc, mode="f64")
     viols += O.c18_pop(fc, pop_bound, long=True)
     viols += O.c18_mem(mem, 2000 if tier == "quick" else 250000)
